@@ -285,6 +285,23 @@ func main() {
 			exit = rc
 		}
 	}
+	if qstatOn {
+		type kv struct {
+			k string
+			v int
+		}
+		var l []kv
+		for k, v := range qstats {
+			l = append(l, kv{k, v})
+		}
+		sort.Slice(l, func(i, j int) bool { return l[i].v > l[j].v })
+		for i, e := range l {
+			if i > 40 {
+				break
+			}
+			fmt.Fprintf(os.Stderr, "%6d %s\n", e.v, e.k)
+		}
+	}
 	os.Exit(exit)
 }
 
